@@ -29,7 +29,7 @@ def run(ctx):
     rows = P.table(ctx, NEXT, ['self'])
     site = ctx.site(NEXT)
     D_ = ('self.done', False)
-    EQ = '(self.payload.delivery_tag == self.parent.expected)'
+    EQ = '(self.parent.expected == self.payload.delivery_tag)'  # operands of == are sorted
     GT = '(self.parent.expected < self.payload.delivery_tag)'  # canonical comparison form: tag > expected
     LT = '(self.payload.delivery_tag < self.parent.expected)'   # neither equal nor greater (trichotomy is applied by the path reader)
 
